@@ -542,6 +542,124 @@ func runFault(c DBCase) (fail string, stats map[string]int) {
 	return "", stats
 }
 
+// runManifestFault: a manifest Sync fails once (a commit fails, its version id is abandoned, the commit is retried).
+// The reference loop must get past the abandoned id: afterwards deletion works as usual.
+func runManifestFault(c DBCase) (fail string, stats map[string]int) {
+	stats = map[string]int{}
+	r := vlib.NewRNG(c.Seed)
+	stor := vstor.New(false)
+	o := c.Cfg.Options()
+	db, err := leveldb.Open(stor, o)
+	if err != nil {
+		return "Open error " + err.Error(), stats
+	}
+	defer func() { db.Close() }()
+	vsz := c.Cfg.WriteBuffer / 6
+	if vsz < 40 {
+		vsz = 40
+	}
+	nkeys := 60
+	for i := 0; i < 2*nkeys; i++ {
+		k := r.Intn(nkeys)
+		db.Put(keyN(k), valN(k, i, vsz), nil)
+	}
+	leveldb.VerifWaitIdle(db, settleBound)
+	for round := 0; round < 3; round++ {
+		ft := &vstor.Fault{Kind: vstor.OpSync, Type: storage.TypeManifest, K: r.Intn(3)}
+		stor.AddFault(ft)
+		for i := 0; i < 3*nkeys; i++ {
+			k := (i*7 + round) % nkeys
+			db.Put(keyN(k), valN(k, 1000*round+i, vsz), nil)
+		}
+		db.CompactRange(util.Range{})
+		if ft.Hits > 0 {
+			stats["fault_hit"]++
+		}
+		stor.Heal()
+		leveldb.VerifWaitIdle(db, settleBound)
+	}
+	for i := 0; i < nkeys; i++ {
+		db.Put(keyN(i), valN(i, 9999, vsz), nil)
+	}
+	if err := db.CompactRange(util.Range{}); err != nil {
+		leveldb.VerifWaitIdle(db, settleBound)
+		if err2 := db.CompactRange(util.Range{}); err2 != nil {
+			stats["compact_error_after_heal"]++
+		}
+	}
+	if d := settle(db, stor); d != "" {
+		return "after commits failed on a manifest Sync fault (version ids abandoned), the fault was healed and background work settled: " + d, stats
+	}
+	if cs := counters(stor); cs != "" {
+		return cs, stats
+	}
+	return "", stats
+}
+
+// runTxnIter: an iterator of a transaction stays open across Discard; the tables the transaction built are
+// removed through the file cache, i.e. only after the iterator let go of them.
+func runTxnIter(c DBCase) (fail string, stats map[string]int) {
+	stats = map[string]int{}
+	r := vlib.NewRNG(c.Seed)
+	stor := vstor.New(false)
+	o := c.Cfg.Options()
+	db, err := leveldb.Open(stor, o)
+	if err != nil {
+		return "Open error " + err.Error(), stats
+	}
+	defer func() { db.Close() }()
+	for i := 0; i < 20; i++ {
+		db.Put(keyN(i), valN(i, 0, 50), nil)
+	}
+	for round := 0; round < 3; round++ {
+		tr, err := db.OpenTransaction()
+		if err != nil {
+			return "OpenTransaction error " + err.Error(), stats
+		}
+		c0 := stor.Counts(vstor.OpCreate, storage.TypeTable)
+		n := 0
+		for total := 0; total < 4*c.Cfg.WriteBuffer; n++ {
+			v := valN(n, round, r.Range(60, 300))
+			if err := tr.Put(keyN(1000+n), v, nil); err != nil {
+				tr.Discard()
+				return "Transaction.Put error " + err.Error(), stats
+			}
+			total += len(v) + 16
+		}
+		stats["txn_tables_created"] += stor.Counts(vstor.OpCreate, storage.TypeTable) - c0
+		it := tr.NewIterator(nil, nil)
+		seen := 0
+		for ok := it.First(); ok && seen < n/3; ok = it.Next() {
+			seen++
+		}
+		commit := r.Chance(1, 4)
+		if commit {
+			if err := tr.Commit(); err != nil {
+				it.Release()
+				return "Transaction.Commit error " + err.Error(), stats
+			}
+		} else {
+			tr.Discard()
+		}
+		// the iterator goes on over what it pinned
+		for it.Next() {
+			seen++
+		}
+		if err := it.Error(); err != nil {
+			stats["iterator_error_after_discard"]++
+		}
+		if cs := counters(stor); cs != "" {
+			it.Release()
+			return fmt.Sprintf("iterator of a transaction kept across %s: %s", map[bool]string{true: "Commit", false: "Discard"}[commit], cs), stats
+		}
+		it.Release()
+		if d := settle(db, stor); d != "" {
+			return fmt.Sprintf("after a transaction (commit=%v) whose iterator was released after it ended: %s", commit, d), stats
+		}
+	}
+	return "", stats
+}
+
 // tablesExactClone checks a closed DB for residue without letting its janitor run: a clone of the storage is
 // opened (with compaction triggers out of reach, so that the version right after Open is the manifest's version
 // plus what the journal replay flushes) and every table file of the original storage must belong to it.
